@@ -191,6 +191,7 @@ outer:
 					ats = append(ats, v)
 				}
 				sort.Slice(ats, func(i, j int) bool { return ats[i] < ats[j] })
+				ats = reachable(ats)
 				pan = bubble(t, func() {
 					w, err := newWorld(b.Realm, handler(b.Kind, b.Secret))
 					if err != nil {
